@@ -114,6 +114,29 @@ def compare(st, case, what, build, sig):
         if snap(sym) != before:
             v("subs-mutates", "subs changed the symbolic original", c)
             before = snap(sym)
+        # "subs leaves the original unchanged", also under any later use of the result: extend the substituted model with
+        # one more recorded constraint of every kind it has, and a new term
+        if not diff and hasattr(sub, "constraints") and c == CS[0]:
+            kinds = list(sub.constraints)
+            lab = next(iter(sub.variables), "a")
+
+            def extend(H):
+                for kind in kinds:
+                    getattr(H, "add_constraint_%s_zero" % kind)({(lab,): 1}, lam=0)
+                H[(lab, "extra-label")] += 1
+            r, _w = call(extend, sub)
+            if snap(sym) != before:
+                v("subs-aliases-original", "extending the model returned by subs (another %s constraint) changed the symbolic original" % kinds, c)
+                sym, _w = call(build, s)
+                before = snap(sym)
+            sub2, _w = call(sym.subs, {s: c})
+            if not isinstance(sub2, Raised):
+                b2 = snap(sub2)
+                call(extend, sym)
+                if snap(sub2) != b2:
+                    v("subs-aliases-original", "extending the symbolic original changed a model returned earlier by subs", c)
+                sym, _w = call(build, s)
+                before = snap(sym)
     st.outcomes[sig.split("|")[0]] += 1
 
 
